@@ -36,13 +36,12 @@ class Trampoline:
         ready: deque[ScheduledItem] = deque()
         while True:
             with self._lock:
-                while len(self._queue) > 0:
+                # one item per round: what it schedules may be due before the next one
+                if len(self._queue) > 0:
                     item: ScheduledItem = self._queue.peek()
                     if item.duetime <= item.scheduler.now:
                         self._queue.dequeue()
                         ready.append(item)
-                    else:
-                        break
 
             while len(ready) > 0:
                 item = ready.popleft()
